@@ -21,7 +21,7 @@ LEVEL = "exploration"
 RULE = ("generated conversation scripts of 2-14 operations over 2-4 accounts (each registered from a template profile or started "
         "from nothing, so that the first passive login uploads its keys): send(from, to | group, payload) with payload in {text, "
         "link preview, image, video, audio, document, sticker, location, contact} and a unique >= 12-byte marker in every textual or binary field; deliver(k) of "
-        "the k-th queued server stanza in any order; duplicate(k) of a queued message stanza; corrupt(k): one flipped ciphertext "
+        "the k-th queued server stanza in any order; duplicate(k) of a queued message stanza; corrupt(k): one damaged ciphertext (a flipped byte at a generated position - head, body, MAC - or a truncation; damage that would land in the identity key a first message claims is moved into the ciphertext, an identity change being C17's subject) "
         "byte, once per message and recipient; restart(account) while none of its stanzas is queued; loop(account); all queues "
         "are drained at the end. Non-trivial = a group message, a duplicate / corruption, a restart or an out-of-order delivery. "
         "Distinct = distinct canonical JSON.")
